@@ -304,6 +304,7 @@ int SimulateTms1000::dump_ram(int start, int end)
   printf("RAM:");
 
   if (end >= 64) { end = 63; }
+  if (start < 0) { start = 0; }
 
   for (int i = start; i <= end; i++)
   {
